@@ -262,6 +262,8 @@ class Check:
         status = EXIT_OK
         if self.violations:
             status = EXIT_VIOLATION
+        elif getattr(self, "is_replay", False):
+            status = EXIT_OK
         elif self.evaluations < min_evaluations or len(self.nontrivial) < 2:
             print("INCONCLUSIVE property=%s: too little was observed (evaluations=%d, non-trivial=%d, inconclusive=%d)"
                   % (self.pid, self.evaluations, len(self.nontrivial), len(self.inconclusive)))
